@@ -130,7 +130,7 @@ func (c14) Gen(r *Rand, idx int, tier string) interface{} {
 				p.ReadSize = []int{1, 3, 8, 9}[(idx/5)%4]
 			}
 			if idx%4 == 3 {
-				p.QueueSize = 1 + (idx/4)%2
+				p.QueueSize = []int{1, 2, -1}[(idx/4)%3] // -1: unbuffered
 			}
 			if idx%6 == 1 && p.Kind != "eof-with-data" && !strings.HasPrefix(p.Kind, "transient") {
 				p.FailDelayMs = []int{500, 1000, 2000, 10000}[(idx/6)%4] * p.ReadTimeoutS / 2
@@ -533,6 +533,9 @@ func c14RunTransient(p *c14Plan, v *Verdict, cfg simrt.Config, base *respResult,
 }
 
 func c14Queue(p *c14Plan) int {
+	if p.QueueSize < 0 {
+		return 0
+	}
 	if p.QueueSize > 0 {
 		return p.QueueSize
 	}
